@@ -66,19 +66,31 @@ Record cell_req := {
 Definition only_sig (m : smap term) (s : sig) : bool :=
   forallb (fun k => Pos.eqb k s || term_eqb (get talg m k) (TC 0)) (map fst m).
 
-Definition exp_write (ds : list decl) (c : cell_req) : term :=
-  let vals := den_prog talg ds in
-  mk_ite (mk_cmp CGt (den talg vals (g_when c)) (TC 0)) (den talg vals (g_data c)) (TC 0).
-Definition exp_hold (ds : list decl) (c : cell_req) : term :=
-  let vals := den_prog talg ds in
-  mk_ite (mk_not (mk_cmp CGt (den talg vals (g_when c)) (TC 0)))
+(* source expressions evaluated symbolically / concretely over the program's declarations *)
+Definition sden (U : list sig) (ds : list decl) (e : expr) : term :=
+  den talg U (den_prog talg U ds) (bden_prog talg U ds) e.
+Definition zden (env : var -> Z) (U : list sig) (ds : list decl) (e : expr) : Z :=
+  den (zalg env) U (den_prog (zalg env) U ds) (bden_prog (zalg env) U ds) e.
+
+Lemma sden_sound env U ds e : eval env (sden U ds e) = zden env U ds e.
+Proof.
+  unfold sden, zden.
+  rewrite (den_hom talg (zalg env) (eval env) (talg_hom env)),
+          (den_prog_hom talg (zalg env) (eval env) (talg_hom env)),
+          (bden_prog_hom talg (zalg env) (eval env) (talg_hom env)). reflexivity.
+Qed.
+
+Definition exp_write (U : list sig) (ds : list decl) (c : cell_req) : term :=
+  mk_ite (mk_cmp CGt (sden U ds (g_when c)) (TC 0)) (sden U ds (g_data c)) (TC 0).
+Definition exp_hold (U : list sig) (ds : list decl) (c : cell_req) : term :=
+  mk_ite (mk_not (mk_cmp CGt (sden U ds (g_when c)) (TC 0)))
          (mk_add (TV (g_vw c)) (TV (g_vh c))) (TC 0).
 
-Definition cell_ok (ds : list decl) (st' : state term) (c : cell_req) : bool :=
+Definition cell_ok (U : list sig) (ds : list decl) (st' : state term) (c : cell_req) : bool :=
   let mw := nth (g_w c) st' [] in
   let mh := nth (g_h c) st' [] in
-  term_eqb (get talg mw (g_sig c)) (exp_write ds c) && only_sig mw (g_sig c) &&
-  term_eqb (get talg mh (g_sig c)) (exp_hold ds c) && only_sig mh (g_sig c).
+  term_eqb (get talg mw (g_sig c)) (exp_write U ds c) && only_sig mw (g_sig c) &&
+  term_eqb (get talg mh (g_sig c)) (exp_hold U ds c) && only_sig mh (g_sig c).
 
 (* the whole check of a program with gated cells: outputs and entity conditions on the
    quasi-settled state (the memory value enters the specification as vw + vh), and the
@@ -89,9 +101,9 @@ Definition check_cells (b : bp) (cut : cut_t) (fuel : nat) (ds : list decl)
   | None => None
   | Some (k, st, st') =>
       let fb := freeze b cut in
-      if forallb (fun ot => term_eqb (observe talg fb st (fst ot)) (snd ot)) (c01_outs ds qs)
-         && forallb (pc_ok fb st) (prog_pcs ds rs)
-         && forallb (cell_ok ds st') cells
+      if forallb (fun ot => term_eqb (observe talg fb st (fst ot)) (snd ot)) (c01_outs (b_univ b) ds qs)
+         && forallb (pc_ok fb st) (prog_pcs (b_univ b) ds rs)
+         && forallb (cell_ok (b_univ b) ds st') cells
       then Some k else None
   end.
 
@@ -102,53 +114,49 @@ Theorem check_cells_sound b cut fuel ds qs rs cells k :
   exists st : state term,
   forall env : var -> Z,
     let s := map (hm (eval env)) st in
-    let vals := den_prog (zalg env) ds in
+    let U := b_univ b in
     (* s is quasi-settled around the cell contents env assigns to the state variables *)
     step (zalg env) (freeze b cut) s = s /\
     (* every output shows what the source denotes, the memory value being vw + vh *)
     (forall q, In q qs ->
-       observe (zalg env) (freeze b cut) s (q_obs ds q) = nth (q_decl q) vals 0) /\
+       observe (zalg env) (freeze b cut) s (q_obs ds q) = nth (q_decl q) (den_prog (zalg env) U ds) 0) /\
     (* one tick later each write gate shows the data iff the enable is positive, each hold gate
        shows the sum of both gates iff it is not *)
     (forall c, In c cells ->
        let s' := step (zalg env) b s in
-       let en := den (zalg env) vals (g_when c) >? 0 in
-       zget env (nth (g_w c) s' []) (g_sig c) = (if en then den (zalg env) vals (g_data c) else 0) /\
+       let en := zden env U ds (g_when c) >? 0 in
+       zget env (nth (g_w c) s' []) (g_sig c) = (if en then zden env U ds (g_data c) else 0) /\
        zget env (nth (g_h c) s' []) (g_sig c)
          = (if en then 0 else wrap32 (wrap32 (env (g_vw c)) + wrap32 (env (g_vh c))))).
 Proof.
   unfold check_cells. destruct (cell_step b cut fuel) as [[[k' st] st']|] eqn:CS; [|discriminate].
-  destruct (forallb _ (c01_outs ds qs) && forallb _ (prog_pcs ds rs) && forallb _ cells) eqn:Q; [|discriminate].
+  destruct (forallb _ (c01_outs (b_univ b) ds qs) && forallb _ (prog_pcs (b_univ b) ds rs) && forallb _ cells) eqn:Q; [|discriminate].
   intros _. exists st. intros env. cbv zeta.
-  set (s := map (hm (eval env)) st). set (vals := den_prog (zalg env) ds).
+  set (s := map (hm (eval env)) st). set (U := b_univ b).
   destruct (cell_step_sound b cut fuel k' st st' CS env) as [S1 S2]. fold s in S1, S2.
   apply andb_true_iff in Q as [Q Q3]. apply andb_true_iff in Q as [Q1 Q2].
   split; [exact S1|]. split.
   - intros q Hq. rewrite forallb_forall in Q1.
-    assert (I : In (q_obs ds q, nth (q_decl q) (den_prog talg ds) (TC 0)) (c01_outs ds qs)).
+    assert (I : In (q_obs ds q, nth (q_decl q) (den_prog talg U ds) (TC 0)) (c01_outs U ds qs)).
     { unfold c01_outs. apply in_map_iff. exists q. split; [reflexivity | exact Hq]. }
     specialize (Q1 _ I). cbn [fst snd] in Q1. apply term_eqb_eq in Q1.
-    unfold vals. rewrite <- (den_prog_hom talg (zalg env) (eval env) (talg_hom env)).
-    transitivity (eval env (nth (q_decl q) (den_prog talg ds) (TC 0)));
-      [|symmetry; apply (map_nth (eval env) (den_prog talg ds) (TC 0))].
+    rewrite <- (den_prog_hom talg (zalg env) (eval env) (talg_hom env)).
+    transitivity (eval env (nth (q_decl q) (den_prog talg U ds) (TC 0)));
+      [|symmetry; apply (map_nth (eval env) (den_prog talg U ds) (TC 0))].
     rewrite <- Q1. unfold observe, s.
     rewrite (rd_hom talg (zalg env) (eval env) (talg_hom env)), !(netval_hom (V:=term) (W:=Z) (eval env)).
     reflexivity.
-  - intros c Hc. set (s' := step (zalg env) b s). set (en := den (zalg env) vals (g_when c) >? 0).
+  - intros c Hc. set (s' := step (zalg env) b s). set (en := zden env U ds (g_when c) >? 0).
     rewrite forallb_forall in Q3. specialize (Q3 _ Hc).
     unfold cell_ok in Q3. repeat (apply andb_true_iff in Q3 as [Q3 ?]).
     match goal with H : term_eqb (get talg (nth (g_h c) st' []) _) _ = true |- _ => apply term_eqb_eq in H; rename H into EH end.
     apply term_eqb_eq in Q3. rename Q3 into EW.
     assert (N : forall i, nth i s' [] = hm (eval env) (nth i st' [])).
     { intros i. unfold s'. rewrite S2. change [] with (hm (eval env) []) at 1. apply map_nth. }
-    assert (VAL : map (eval env) (den_prog talg ds) = vals)
-      by apply (den_prog_hom talg (zalg env) (eval env) (talg_hom env)).
-    assert (DEN : forall e, eval env (den talg (den_prog talg ds) e) = den (zalg env) vals e).
-    { intros e. rewrite (den_hom talg (zalg env) (eval env) (talg_hom env)), VAL. reflexivity. }
     unfold zget. rewrite !N, <- !(get_hom talg (zalg env) (eval env) (talg_hom env)), EW, EH.
     unfold exp_write, exp_hold.
-    rewrite !mk_ite_sound, mk_not_sound, !mk_cmp_sound, mk_add_sound, !DEN. cbn [eval].
+    rewrite !mk_ite_sound, mk_not_sound, !mk_cmp_sound, mk_add_sound, !sden_sound. cbn [eval].
     rewrite wrap32_0.
     assert (NZ : forall bb : bool, nz (b2z bb) = bb) by (intros []; reflexivity).
-    rewrite !NZ. cbn [cmp]. fold en. destruct en; cbn [negb]; split; reflexivity.
+    rewrite !NZ. cbn [cmp]. fold U. fold en. destruct en; cbn [negb]; split; reflexivity.
 Qed.
